@@ -4,6 +4,7 @@ import (
 	"context"
 	"fmt"
 	"os"
+	"time"
 
 	"pgregory.net/rapid"
 
@@ -38,6 +39,12 @@ type ScenarioB struct {
 	P2PHeaders int   `json:"p2p_headers"`
 	P2PData    int   `json:"p2p_data"`
 	Ops        []OpB `json:"ops"`
+	// ExecMs: how long the full node's execution layer takes per block (virtual time). With a slow
+	// execution layer a restart finds the sync loop busy and events still queued in its channels.
+	ExecMs int `json:"exec_ms,omitempty"`
+	// Repeat runs the scenario several times: the order in which the sync loop picks queued header
+	// and data events is chosen by the Go runtime (select), not by the scenario.
+	Repeat int `json:"repeat,omitempty"`
 }
 
 // GenB draws a real-ingress scenario. withCrash adds crash restarts (C07), otherwise clean restarts only.
@@ -73,6 +80,12 @@ func GenB(t *rapid.T, maxChain int, withCrash bool) ScenarioB {
 	default:
 		sc.P2PHeaders = rapid.IntRange(0, n).Draw(t, "p2ph")
 		sc.P2PData = rapid.IntRange(0, n).Draw(t, "p2pd")
+	}
+	if rapid.IntRange(0, 2).Draw(t, "slowexec") == 0 {
+		sc.ExecMs = rapid.SampledFrom([]int{500, 3000, 7000}).Draw(t, "execms")
+	}
+	if sc.ExecMs > 0 {
+		sc.Repeat = 3
 	}
 	nops := rapid.IntRange(2, 14).Draw(t, "nops")
 	for i := 0; i < nops; i++ {
@@ -116,6 +129,17 @@ func copyData(d *types.Data) *types.Data {
 // RunB runs the scenario; step is called after every op, final after everything was made visible
 // and the node had time to settle.
 func RunB(sc ScenarioB, dir, id string, step func(r *BRun, when string) *world.Problem, final func(r *BRun) *world.Problem) world.Verdict {
+	var v world.Verdict
+	for i := 0; i < sc.Repeat || i == 0; i++ {
+		v = runB(sc, dir, id, step, final)
+		if v.Violation != "" {
+			return v
+		}
+	}
+	return v
+}
+
+func runB(sc ScenarioB, dir, id string, step func(r *BRun, when string) *world.Problem, final func(r *BRun) *world.Problem) world.Verdict {
 	return sw.InBubble(func() world.Verdict {
 		root, _ := os.MkdirTemp(dir, "drvb")
 		defer os.RemoveAll(root)
@@ -146,6 +170,7 @@ func RunB(sc ScenarioB, dir, id string, step func(r *BRun, when string) *world.P
 		}
 		r.F = f
 		f.Raw.SetNoPanic(true)
+		f.Exec.Latency = time.Duration(sc.ExecMs) * time.Millisecond
 		// deliverable prefixes
 		r.HStar = c.Opts.InitialHeight - 1
 		for i, b := range c.Blocks {
@@ -229,7 +254,7 @@ func RunB(sc ScenarioB, dir, id string, step func(r *BRun, when string) *world.P
 		da.ForceHead(r.MaxDA + 1)
 		growH(len(c.Blocks))
 		growD(len(c.Blocks))
-		f.Tick(len(c.Blocks) + int(r.MaxDA) + 6)
+		f.Tick(len(c.Blocks) + int(r.MaxDA) + 6 + len(c.Blocks)*(sc.ExecMs/2000+1))
 		select {
 		case f.N.M.VerifDAIncluderCh() <- struct{}{}:
 		default:
@@ -243,6 +268,9 @@ func RunB(sc ScenarioB, dir, id string, step func(r *BRun, when string) *world.P
 		}
 		if crashes > 0 {
 			r.Labels = append(r.Labels, "crash")
+		}
+		if sc.ExecMs > 0 {
+			r.Labels = append(r.Labels, "slow-execution")
 		}
 		kinds := map[bool]bool{}
 		for _, b := range c.Blocks {
